@@ -63,7 +63,7 @@ C11L == [kind : {"loss_struct"}, family : {"C11L"}, lkind : {"statio", "nonstati
          b : {1, 2, 4}, R : 1..2, M : 1..2, gzero : BOOLEAN]
 C11Lok(c) == /\ (c.term = "ic" => c.lkind = "nonstatio" /\ ~c.gzero)
              /\ (c.term = "norm" => c.M = 1 /\ ~c.gzero)
-             /\ (c.term = "neumann" => c.M = 1)
+             /\ (c.term = "neumann" => c.R = 1 \/ c.M = 1)       \* Neumann on one selected component of a 1- or 2-output network
              /\ (c.dim = 2 /\ c.lkind = "nonstatio" => c.b <= 2)
 Space == CASE Family = "C03" -> {c \in C03 : C03ok(c)}
            [] Family = "C11L" -> {c \in C11L : C11Lok(c)}
